@@ -65,6 +65,16 @@ pub fn build_modules(mods: &[(&str, String)], ptr: usize) -> Outcome {
         ),
     }
 }
+// ---- sharding: VERIF_SHARD=i/n splits the work of one witness search over n processes (the runner merges the results).
+// Whole families are dealt out round robin; the two big families (layout, scope) are split case by case.
+pub fn shard() -> (usize, usize) {
+    std::env::var("VERIF_SHARD").ok().and_then(|v| { let (a, b) = v.split_once('/')?; Some((a.parse().ok()?, b.parse().ok()?)) }).filter(|(i, n)| *n > 0 && i < n).unwrap_or((0, 1))
+}
+/// true when case `idx` of a split family belongs to another shard
+pub fn shard_skip(idx: usize) -> bool { let (i, n) = shard(); n > 1 && idx % n != i }
+/// true when whole family number `fam` belongs to this shard
+fn shard_family(fam: usize) -> bool { let (i, n) = shard(); n <= 1 || fam % n == i }
+
 // ---- bounded backend check on a sample of the inputs every family accepts (emit.rs)
 thread_local! {
     /// (stride, counter, violations found): stride 0 = off
@@ -307,6 +317,7 @@ fn layout_family(seed: u64, quick: bool, props: &str, out: &mut Vec<Fail>) -> us
         for nf in 0..=2usize {
             let combos = (TYS.len() * addrs.len()).pow(nf as u32);
             for k in 0..combos {
+                if shard_skip(k) { continue; }
                 let mut fields = vec![];
                 let mut kk = k;
                 for _ in 0..nf { let t = kk % TYS.len(); kk /= TYS.len(); let a = kk % addrs.len(); kk /= addrs.len(); fields.push((t, addrs[a])); }
@@ -336,6 +347,7 @@ fn layout_family(seed: u64, quick: bool, props: &str, out: &mut Vec<Fail>) -> us
     // size made up by a declared size or a trailing field
     let ix = |txt: &str| TYS.iter().position(|t| t.txt == txt).unwrap();
     for ptr in [4usize, 8] {
+        if shard().0 != 0 { break; }
         for first in ["u8", "u16", "u32"] {
             for second in ["Marker", "Odd", "void", "[u32; 0]"] {
                 for (third, size) in [(None, Some(8u128)), (None, Some(16)), (Some("unknown<5>"), None), (Some("[u16; 3]"), None), (Some("u8"), Some(8)), (None, None)] {
@@ -354,7 +366,8 @@ fn layout_family(seed: u64, quick: bool, props: &str, out: &mut Vec<Fail>) -> us
     // pseudo-random 3-4 field types
     let mut x = seed.wrapping_mul(6364136223846793005).wrapping_add(1442695040888963407) | 1;
     let mut rnd = |m: usize| { x ^= x << 13; x ^= x >> 7; x ^= x << 17; (x % m as u64) as usize };
-    for _ in 0..(if quick { 800 } else { 6000 }) {
+    for it in 0..(if quick { 800 } else { 6000 }) {
+        let skip = shard_skip(it);
         let nf = 3 + rnd(2);
         let mut fields = vec![]; let mut end = 0u128;
         for _ in 0..nf {
@@ -364,7 +377,9 @@ fn layout_family(seed: u64, quick: bool, props: &str, out: &mut Vec<Fail>) -> us
             fields.push((t, a));
         }
         let c = LayoutCase { fields, size: if rnd(3) == 0 { Some(((end + 7) / 8 * 8) + [0u128, 8][rnd(2)]) } else { None }, align: aligns[rnd(aligns.len())], packed: rnd(8) == 0, vftable: rnd(4) == 0 };
-        layout_check(&c, [4usize, 8][rnd(2)], props, out);
+        let p_ = [4usize, 8][rnd(2)];
+        if skip { continue; }
+        layout_check(&c, p_, props, out);
         n += 1;
         if out.len() > 40 { return n; }
     }
@@ -1183,23 +1198,23 @@ fn mutation_family(seed: u64, quick: bool, out: &mut Vec<Fail>) -> usize {
 fn run_family(prop: &str, seed: u64, quick: bool, out: &mut Vec<Fail>) -> usize {
     let mut n = 0;
     // hangs and panics first: once a few inputs are known to hang there is no point in paying ten seconds each for more
-    if ["C12", "C03"].contains(&prop) { n += absurd_family(out); }
+    if ["C12", "C03"].contains(&prop) && shard_family(0) { n += absurd_family(out); }
     if prop == "C12" && out.len() >= 3 { return n; }
-    if ["C14", "C12"].contains(&prop) { n += fs_family(prop, out); }
-    if prop == "C12" { n += mutation_family(seed, quick, out); }
+    if ["C14", "C12"].contains(&prop) && shard_family(1) { n += fs_family(prop, out); }
+    if prop == "C12" && shard_family(2) { n += mutation_family(seed, quick, out); }
     if prop == "C12" && out.len() >= 3 { return n; }
     if EMIT_PROPS.contains(&prop) {
         // the backend check also runs on every k-th input the other families find accepted
         EMIT_SAMPLE.with(|c| { let mut c = c.borrow_mut(); c.0 = if quick { 97 } else { 13 }; c.1 = seed as usize % 7; });
-        n += emit_family(prop, seed, quick, out);
+        if shard_family(3) { n += emit_family(prop, seed, quick, out); }
     }
-    if ["C01", "C02", "C03", "C12"].contains(&prop) { n += layout_family(seed, quick, prop, out); }
-    if ["C04", "C16", "C02", "C12", "C14", "C06", "C20"].contains(&prop) { n += vft_family(prop, out); }
-    if ["C08", "C02", "C15", "C17", "C12", "C20"].contains(&prop) { n += enum_family(seed, quick, prop, out); }
-    if ["C05", "C16", "C17", "C10", "C12"].contains(&prop) { n += fn_family(prop, out); }
-    if ["C06", "C16", "C12"].contains(&prop) { n += inherit_family(if prop == "C16" { "C06" } else { prop }, out); }
-    if ["C05", "C07", "C10", "C11", "C14", "C15", "C17", "C19", "C20", "C12"].contains(&prop) { n += misc_family(prop, out); }
-    if ["C11", "C19", "C10"].contains(&prop) { n += scope::scope_family(prop, quick, out); }
+    if ["C01", "C02", "C03", "C12"].contains(&prop) { n += layout_family(seed, quick, prop, out); }   // split case by case
+    if ["C04", "C16", "C02", "C12", "C14", "C06", "C20"].contains(&prop) && shard_family(4) { n += vft_family(prop, out); }
+    if ["C08", "C02", "C15", "C17", "C12", "C20"].contains(&prop) && shard_family(5) { n += enum_family(seed, quick, prop, out); }
+    if ["C05", "C16", "C17", "C10", "C12"].contains(&prop) && shard_family(6) { n += fn_family(prop, out); }
+    if ["C06", "C16", "C12"].contains(&prop) && shard_family(7) { n += inherit_family(if prop == "C16" { "C06" } else { prop }, out); }
+    if ["C05", "C07", "C10", "C11", "C14", "C15", "C17", "C19", "C20", "C12"].contains(&prop) && shard_family(8) { n += misc_family(prop, out); }
+    if ["C11", "C19", "C10"].contains(&prop) { n += scope::scope_family(prop, quick, out); }   // split case by case
     let sampled = EMIT_SAMPLE.with(|c| { let mut c = c.borrow_mut(); c.0 = 0; std::mem::take(&mut c.2) });
     for (input, ptr, x) in &sampled { emit_fail(out, prop, input.clone(), *ptr, x); }
     n
